@@ -63,7 +63,9 @@ VIS_FIELDS = {
     "oscilloscope_size": [0, 1, 12, 254, 255], "bg_transparency": [0, 1, 2, 3], "shadow_opacity": [0, 1, 2, 3],
 }
 CMID_VALUES = ([[t, 0, 0, 0] for t in range(1, 9)] + [[3, 16, 0, 0]] + [[3, 1, s, 7] for s in range(1, 6)]
-               + [[4, 0, 0, 0xFFFF], [1, 15, 5, 0x1234]])
+               + [[4, 0, 0, 0xFFFF], [1, 15, 5, 0x1234]]
+               # message type still unset but the other fields already chosen (they are stored all the same)
+               + [[0, 5, 0, 0], [0, 0, 3, 0], [0, 0, 0, 77]])
 
 # array payloads: attribute path on the module -> (element lo, hi, length, "values"|"samples")
 ARRAYS = {
